@@ -42,8 +42,10 @@ package main
 // Every reported location must also lie inside the source, and the snippet must be that source line.
 
 import (
+	"encoding/json"
 	"fmt"
 	"math/rand"
+	"os"
 	"sort"
 	"strings"
 
@@ -610,11 +612,11 @@ type c13Case struct {
 func (o *c13Orc) judge(cs *c13Case, rep c13Report) {
 	r := o.c.R
 	r.Count("oracle:"+rep.api, 1)
-	in := map[string]interface{}{"kind": cs.kind, "api": rep.api, "source": cs.src, "occurrence": cs.what}
 	want := []string{}
 	for _, a := range cs.accept {
 		want = append(want, fmt.Sprintf("%d:%d", a.line, a.col))
 	}
+	in := map[string]interface{}{"kind": cs.kind, "api": rep.api, "source": cs.src, "occurrence": cs.what, "accept": want}
 	expect := "a *file.Error located at " + strings.Join(want, " or ") + " (line:0-based column of " + cs.what + "), inside the source, snippet = that source line"
 	viol := func(key, what string) {
 		o.keys[key]++
@@ -1463,10 +1465,87 @@ func (o *c13Orc) fixed() {
 		})
 }
 
+// c13RunAPI runs one entry point by the name used in the reports
+func (o *c13Orc) runAPI(api, src string) c13Report {
+	env := o.env
+	compileRun := func(opts ...expr.Option) func() error {
+		return func() error {
+			p, err := expr.Compile(src, append([]expr.Option{expr.Env(env)}, opts...)...)
+			if err != nil {
+				return err
+			}
+			_, err = expr.Run(p, env)
+			return err
+		}
+	}
+	compile := func(opts ...expr.Option) func() error {
+		return func() error {
+			_, err := expr.Compile(src, append([]expr.Option{expr.Env(env)}, opts...)...)
+			return err
+		}
+	}
+	switch api {
+	case "Parse":
+		return c13Call(api, func() error { _, err := parser.Parse(src); return err })
+	case "Eval":
+		return c13Call(api, func() error { _, err := expr.Eval(src, env); return err })
+	case "Compile":
+		return c13Call(api, compile())
+	case "Compile+Optimize(false)":
+		return c13Call(api, compile(expr.Optimize(false)))
+	case "Compile+AsBool":
+		return c13Call(api, compile(expr.AsBool()))
+	case "Compile+AsInt64":
+		return c13Call(api, compile(expr.AsInt64()))
+	case "Compile+AsFloat64":
+		return c13Call(api, compile(expr.AsFloat64()))
+	case "Compile+Run":
+		return c13Call(api, compileRun())
+	case "Compile+Optimize(false)+Run":
+		return c13Call(api, compileRun(expr.Optimize(false)))
+	}
+	return c13Report{api: api, err: fmt.Errorf("unknown api %s", api), panicked: true}
+}
+
+// replay re-runs the input of a recorded counterexample (replays/C13/cex-*.json)
+func (o *c13Orc) replay(path string) {
+	r := o.c.R
+	b, err := os.ReadFile(path)
+	if err != nil {
+		r.Mismatch("replay", path, "readable replay file", err.Error())
+		return
+	}
+	var doc struct {
+		Violation struct {
+			Input struct {
+				Kind, Api, Source, Occurrence string
+				Accept                        []string
+			} `json:"input"`
+		} `json:"violation"`
+	}
+	if err := json.Unmarshal(b, &doc); err != nil || doc.Violation.Input.Source == "" && doc.Violation.Input.Api == "" {
+		r.Mismatch("replay", path, "a C13 counterexample", fmt.Sprint(err))
+		return
+	}
+	in := doc.Violation.Input
+	cs := &c13Case{kind: in.Kind, src: in.Source, what: in.Occurrence}
+	for _, a := range in.Accept {
+		var p c13Pos
+		fmt.Sscanf(a, "%d:%d", &p.line, &p.col)
+		cs.accept = append(cs.accept, p)
+	}
+	o.noteSource(cs.src)
+	o.judge(cs, o.runAPI(in.Api, in.Source))
+}
+
 func c13Oracle(c *Ctx) {
 	r := c.R
 	o := &c13Orc{c: c, keys: map[string]int{}, env: c13MakeEnv(),
 		lexKinds: map[string]bool{"illegal-char": true, "bad-number": true, "bad-escape": true, "unterminated-string": true}}
+	if c.Replay != "" {
+		o.replay(c.Replay)
+		return
+	}
 	o.fixed()
 	per := 40
 	if c.Thorough() {
